@@ -52,7 +52,13 @@ def generate(seed, stratum, tier):
         'start': rng.randrange(0, 40), 'len': rng.choice([400, 2000, 10000])}
   if stratum == 'fabric-stop':
     sd['victims'] = rng.choice([['consumer', 'fabric.lifo', 'fabric.fifo'], ['fabric.lifo', 'fabric.fifo'], ['consumer', 'fabric.lifo']])
-  return {'objects': objs, 'queue_size': 500, 'clients': clients, 'kinds': {str(k): v for k, v in kinds.items()}, 'sched': sd, 'stratum': stratum}
+  cap = 500
+  if stratum == 'pending' and rng.random() < 0.3:
+    # a small queue: the delivery can find it full (every wake-up token in use); a lifo delivery still goes to the front
+    cap = rng.choice([2, 3, 4, 6])
+    clients[0] += [[rng.choice(['post_fifo', 'post_lifo']), rng.randrange(nobj), rng.choice(['SA', 'SB'])] for _ in range(cap)]
+    clients[0].append(['publish', rng.randrange(nobj), 'SD', None])
+  return {'objects': objs, 'queue_size': cap, 'clients': clients, 'kinds': {str(k): v for k, v in kinds.items()}, 'sched': sd, 'stratum': stratum}
 
 
 def shrink_candidates(sc):
@@ -89,8 +95,9 @@ def execute(sc, sched):
           if len_before >= 1:
             sim.probe('delivery_with_pending_events')
             res.nontrivial.append(hash((kind, min(len_before, 5), op == 'append')))
+          cap_ = run.objs[oi].locking_deque.deque.maxlen
           at_front = index_after == 0
-          at_back = index_after == len_before
+          at_back = index_after == (len_before if cap_ is None else min(len_before, cap_ - 1))     # on a full queue the oldest made room
           ok = at_front if kind == 'lifo' else at_back
           if not ok and res.outcome != 'violation':
             res.violate('delivery-end', {'thread': role, 'op': op},
